@@ -521,8 +521,10 @@ def listener(ctx: Any) -> List[Ob]:
         hits = [n for n in fcfg.nodes if any(call_name(x) == callee for e in n.exprs() for x in ast.walk(e) if isinstance(x, ast.Call))]
         byp_c = fcfg.must_pass_before_exit(fcfg.entry, lambda n: n in hits) if hits else [fcfg.entry]
         obs.append(ob(R, fm, hits[0].ast if hits else callee, f'{what} (on every path)', bool(hits) and byp_c is None))
+    from .common import expand as _xp_st  # noqa: F811
+
     ra_ = az.methods.get('async_remove_all_service_listeners')
-    whole_ = ra_ is not None and any(isinstance(g_, ast.comprehension) and not g_.ifs and any(self_attr(x, ra_.params[0]) == 'async_browsers' for x in ast.walk(g_.iter)) for g_ in ast.walk(ra_.node))
+    whole_ = ra_ is not None and any(isinstance(g_, ast.comprehension) and not g_.ifs and any(self_attr(x, ra_.params[0]) == 'async_browsers' for x in ast.walk(_xp_st(ra_, g_.iter))) for g_ in ast.walk(ra_.node))
     obs.append(ob(R, ra_, 'for listener in list(self.async_browsers)', 'every browser still registered is visited (a snapshot of all keys, no filter)', bool(whole_)))
     rs_ = az.methods.get('async_remove_service_listener')
     if rs_ is None:
